@@ -20,14 +20,9 @@ def run(rep, tier, seed, pa):
     kmax = {2: 5, 3: 4, 4: 3, 5: 2} if tier == "quick" else {2: 8, 3: 6, 4: 4, 5: 3}
     cases = ac.random_cases(rng, 150 if tier == "quick" else 1500, tier, unlabelled_share=0.1, kmax=kmax)
     cases += ac.grid_cases(rng, 100 if tier == "quick" else 2000)
-    items, bests = [], []
-    for k, case in enumerate(cases):
-        mode = "cbc" if k % 2 == 0 else "glpk-noimport"
-        res = ac.align_case(pa, case, mode, soft=True)
-        res["mode"] = mode
-        items.append((case, res))
-        b = ac.align_case(pa, case, mode, soft=False)
-        bests.append(b)
+    modes = ["cbc" if k % 2 == 0 else "glpk-noimport" for k in range(len(cases))]
+    items = list(zip(cases, ac.align_many(pa, [(case, m, True) for case, m in zip(cases, modes)])))
+    bests = ac.align_many(pa, [(case, m, False) for case, m in zip(cases, modes)])
     facts = ac.judge_many(rep, items, part=False, want_optimal=True, limit=20 if tier == "quick" else 120)
     for (case, res), f, best in zip(items, facts, bests):
         I = res.get("I")
